@@ -16,6 +16,15 @@ def noSendWhileBlocked (before : State) (sent : List CPacket) : Bool :=
     else if before.now ≤ r.sendTime + before.retryDelay then sent.isEmpty
     else true
 
+/-- C09: packets are not held back longer than required: with an established, open channel and a
+    non-empty queue, something is sent unless a slash packet is in flight or was bounced less than
+    (or exactly) the retry delay ago -/
+def sendWhenPermitted (before : State) (sent : List CPacket) : Bool :=
+  before.pchan.isNone || !before.chanOpen || before.queue.isEmpty ||
+  (match before.record with
+   | none => !sent.isEmpty
+   | some r => r.waiting || decide (before.now ≤ r.sendTime + before.retryDelay) || !sent.isEmpty)
+
 /-- C09: what is sent in one EndBlock is a prefix of the queue, in order, ending at the first
     slash packet; the slash packet stays queued, the others leave the queue -/
 def sendShape (before after : State) (sent : List CPacket) : Bool :=
